@@ -57,6 +57,10 @@ func ValidateMsgMoveAvailableVestingByDenom(fromAddress string, toAddress string
 		if len(denom) == 0 {
 			return nil, nil, errors.Wrapf(ErrParam, "move available vesting by denoms - empty denomination at position %d", i)
 		}
+		// Coins.AmountOf panics on a denomination that is not a valid coin denom
+		if err := sdk.ValidateDenom(denom); err != nil {
+			return nil, nil, errors.Wrapf(ErrParam, "move available vesting by denoms - invalid denomination at position %d: %s", i, err.Error())
+		}
 
 		if seenDenoms[denom] {
 			return nil, nil, errors.Wrapf(ErrParam, "move available vesting by denoms - duplicate denomination %s", denom)
